@@ -336,7 +336,14 @@ func checkB(c CaseB) *core.Violation {
 				if contained {
 					p.allowFile(target, mustEqual(op.Data))
 					st, err := os.Lstat(target)
-					must = strictID(id) && plainComponents([]string{name}) && !strings.Contains(name, "/") && (err != nil || !st.IsDir())
+					must = strictID(id) && plainComponents([]string{name}) && !strings.ContainsAny(name, "/\\") && (err != nil || !st.IsDir())
+				}
+				// where inside the Download folder a name with "\" is stored is not part of the
+				// property (DownloadAdd treats "\" as a separator, this writer does not): the
+				// normalised spelling is accepted as well when it is contained too
+				if alt := filepath.Clean(dl + "/" + strings.ReplaceAll(name, "\\", "/")); alt != target && contained && inside(dl, alt) {
+					p.allowFile(alt, mustEqual(op.Data))
+					p.dirsUnder = []string{dl}
 				}
 				if mode == "ws" {
 					p.allowFile(w.logFile(id), appendOnlyContaining())
